@@ -90,19 +90,22 @@ def agree(case, got, model):
 
 
 def near_tie(case, h):
-    """two group degrees closer than 1e-9 without being equal, or a positive group degree below 1e-9: float rounding of the
-    aggregation may order them differently from exact arithmetic"""
+    """float rounding of the aggregation may order two groups differently from exact arithmetic: two group degrees closer
+    than 1e-9 without being equal - in float, or in exact arithmetic (0.3 + 0.7 is 1.0 in float and below 1 exactly) - or
+    a positive group degree below 1e-9.  Groups whose exact degrees are equal form a genuine tie and are compared."""
     with np.errstate(all="ignore"):
         try:
             A, _ = build(case, h)
             ds = [float(np.asarray(g.degree, dtype=float).ravel()[0]) for g in A.grouped_terms().values()]
+            ex = [w for _, w in h.grouped({**case, "acts": [{"name": a["name"], "deg": first(a["deg"])} for a in case["acts"]]}, 0)]
         except Exception:  # noqa: BLE001
             return False
-    for i, a in enumerate(ds):
-        if 0 < abs(a) < 1e-9:
-            return True
-        if any(a != b and abs(a - b) < 1e-9 for b in ds[i + 1:]):
-            return True
+    for vals in (ds, ex):
+        for i, a in enumerate(vals):
+            if 0 < abs(a) < 1e-9:
+                return True
+            if any(a != b and abs(a - b) < 1e-9 for b in vals[i + 1:]):
+                return True
     return False
 
 
